@@ -70,6 +70,14 @@ def main():
         for r in ex.map(one, dirs):
             rows.append(r)
             print(*r, flush=True)
+    if a.out and want and os.path.exists(os.path.join(HERE, a.out)):
+        # a partial pass: keep the rows of the seeds that were not run again
+        redone = {r[0] for r in rows}
+        for line in open(os.path.join(HERE, a.out)):
+            cells = [c.strip() for c in line.strip().strip("|").split("|")]
+            if line.startswith("| S") and len(cells) == 3 and cells[0] not in redone:
+                rows.append(tuple(cells))
+        rows.sort()
     n = {}
     for _s, st, _d in rows:
         n[st] = n.get(st, 0) + 1
